@@ -481,7 +481,7 @@ theorem push_small (ext : Ext) : ∀ (x : SVal) (b b' : B), push ext b x = .ok b
       obtain ⟨⟨o2, ks', vs'⟩, h3, h⟩ := (bind_ok _ _ _).1 h
       cases h
       simp only [ViewSmall]
-      exact pushMapOps_small ext ops _ _ _ _ h3
+      exact pushMapOps_small ext ops _ _ _ _ _ h3
     | _ => simp [push, ctx_ok, notSupported, fail] at h
   | .unitVariant n i vn, b, b', h => by
     cases b with
@@ -623,21 +623,19 @@ theorem pushMapEntries_small (ext : Ext) : ∀ (es : SEntries) (offs : List Int)
     have := pushMapEntries_small ext rest o' ks' vs' r h hs
     exact ⟨push_small ext k ks ks' h2 this.1, push_small ext x vs vs' h3 this.2⟩
 
-theorem pushMapOps_small (ext : Ext) : ∀ (ops : SMapOps) (offs : List Int) (ks vs : B) (r : List Int × B × B),
-    pushMapOps ext offs ks vs ops = .ok r → ViewSmall r.2.1 ∧ ViewSmall r.2.2 → ViewSmall ks ∧ ViewSmall vs
-  | .nil, offs, ks, vs, r, h => by rw [pushMapOps] at h; cases h; exact id
-  | .key k rest, offs, ks, vs, r, h => by
-    rw [pushMapOps] at h
-    obtain ⟨o', _, h⟩ := (bind_ok _ _ _).1 h
-    obtain ⟨ks', h2, h⟩ := (bind_ok _ _ _).1 h
+theorem pushMapOps_small (ext : Ext) : ∀ (ops : SMapOps) (pd : Bool) (offs : List Int) (ks vs : B) (r : List Int × B × B),
+    pushMapOps ext pd offs ks vs ops = .ok r → ViewSmall r.2.1 ∧ ViewSmall r.2.2 → ViewSmall ks ∧ ViewSmall vs
+  | .nil, pd, offs, ks, vs, r, h => by
+    obtain ⟨_, rfl⟩ := pushMapOps_nil_ok h; exact id
+  | .key k rest, pd, offs, ks, vs, r, h => by
+    obtain ⟨_, o', ks', _, h2, h⟩ := pushMapOps_key_ok h
     intro hs
-    have := pushMapOps_small ext rest o' ks' vs r h hs
+    have := pushMapOps_small ext rest true o' ks' vs r h hs
     exact ⟨push_small ext k ks ks' h2 this.1, this.2⟩
-  | .value x rest, offs, ks, vs, r, h => by
-    rw [pushMapOps] at h
-    obtain ⟨vs', h3, h⟩ := (bind_ok _ _ _).1 h
+  | .value x rest, pd, offs, ks, vs, r, h => by
+    obtain ⟨_, vs', h3, h⟩ := pushMapOps_value_ok h
     intro hs
-    have := pushMapOps_small ext rest offs ks vs' r h hs
+    have := pushMapOps_small ext rest false offs ks vs' r h hs
     exact ⟨this.1, push_small ext x vs vs' h3 this.2⟩
 end
 
